@@ -9,8 +9,9 @@ import json, os, shutil, sys
 
 prop, v, caught = sys.argv[1], sys.argv[2], sys.argv[3]
 rnd = sys.argv[4] if len(sys.argv) > 4 else '1'
-src = ('/tmp/seed_out/%s' if rnd == '1' else '/tmp/seed_out2/%s') % prop
-sid = '%s%s' % (prop, v) if rnd == '1' else '%s-r2%s' % (prop, v)
+src = {'1': '/tmp/seed_out/%s', '2': '/tmp/seed_out2/%s',
+       '3': '/tmp/seed_out3/%s'}[rnd] % prop
+sid = '%s%s' % (prop, v) if rnd == '1' else '%s-r%s%s' % (prop, rnd, v)
 dst = '/verif/seeded/%s' % sid
 os.makedirs(dst, exist_ok=True)
 shutil.copy(os.path.join(src, '%s.diff' % v), os.path.join(dst, 'patch.diff'))
